@@ -321,6 +321,41 @@ def native_radio(ck, model=None):
         if bad:
             return {"violated": True, "input": {"band": [lo, hi], "detector_altitude": alt, "seed": ck.seed, "sequence_position": 0 if first else 1}, "observed": bad, "clause": bad.get("clause")}
         first = False
+    # a large batch (more than any internal block size that is a round number) against the same events evaluated in two pieces
+    cfg = radio_config(30.0, 300.0, 525.0)
+    big = 12345
+    batch = list(native_batch(rng, big))
+    batch[1] = np.abs(batch[1]) % 10.0  # all in range: one random number pair per event
+    batch[2] = np.maximum(batch[2], 0.1)
+    r = np.random.default_rng(11)
+    f1, f2 = r.uniform(-np.radians(30), np.radians(30), big), r.uniform(-2 * np.pi, 0, big)
+    with np.errstate(all="ignore"):
+        with harness.patched_rng([f1.copy(), f2.copy()]):
+            whole = EASRadio(cfg)(*[b.copy() for b in batch])
+        cut = 7001
+        with harness.patched_rng([f1[:cut].copy(), f2[:cut].copy()]):
+            a_ = EASRadio(cfg)(*[b[:cut].copy() for b in batch])
+        with harness.patched_rng([f1[cut:].copy(), f2[cut:].copy()]):
+            b_ = EASRadio(cfg)(*[b[cut:].copy() for b in batch])
+    n += 3
+    parts = np.concatenate([a_, b_])
+    if whole.shape != parts.shape or not np.array_equal(whole, parts, equal_nan=True):
+        j = int(np.argmax(np.any(whole != parts, axis=1))) if whole.shape == parts.shape else -1
+        return {"violated": True, "input": {"events": big, "split at": cut, "band": [30.0, 300.0], "first differing event": j}, "observed": {"whole batch": whole[j][:3].tolist() if j >= 0 else str(whole.shape), "in two pieces": parts[j][:3].tolist() if j >= 0 else str(parts.shape)},
+                "clause": "an event's field does not depend on the size of the batch or its position in it (12345 events vs the same events in two pieces)"}
+    # events seen exactly on the shower axis (exit view angle 0): the field is finite for every decay point
+    m = 300
+    onaxis = list(native_batch(rng, 3 * m))  # the same (geometrically consistent) event generator as above, restricted to in-range decays, seen on the axis
+    keep = np.flatnonzero((onaxis[1] > 0.0) & (onaxis[1] < 10.0))[:m]
+    onaxis = [x[keep] for x in onaxis]
+    m = len(keep)
+    onaxis[3] = np.zeros(m)
+    out = run(cfg, onaxis, 5)
+    n += 1
+    if not np.all(np.isfinite(out)):
+        j = int(np.argmax(~np.all(np.isfinite(out), axis=1)))
+        return {"violated": True, "input": {"theta": 0.0, "pathLen": float(onaxis[4][j]), "lenDec": float(onaxis[2][j]), "altDec": float(onaxis[1][j]), "events on axis": m}, "observed": {"field row": "non-finite", "events affected": int((~np.all(np.isfinite(out), axis=1)).sum())},
+                "clause": "finite field for every in-range event, also exactly on the shower axis"}
     return {"violated": False, "evaluations": n}
 
 
